@@ -1,15 +1,16 @@
 #!/bin/bash
-# bin/seedrun.sh <patch.diff> <Cnn> [tier] [more Cnn…] — applies a seeded change to /repo, runs the check(s), undoes it.
+# bin/seedrun.sh <patch.diff> <Cnn> [tier] [more Cnn…] — runs check(s) against a scratch worktree of /repo with the
+# seeded change applied (VERIF_REPO_DIR); /repo itself, the evidence files and the work dirs of real runs are untouched.
 P=$(readlink -f "$1"); shift
 TIER=quick
-cd /repo && git diff --quiet || { echo "/repo has uncommitted changes"; exit 2; }
-git apply "$P" || exit 2
-trap 'git -C /repo checkout -- . ; git -C /repo clean -fdq' EXIT
+W=/tmp/seedrun.$$; mkdir -p $W
+git -C /repo worktree add -q --detach $W/lisp HEAD || exit 2
+trap 'git -C /repo worktree remove --force $W/lisp 2>/dev/null; rm -rf $W /verif/.work/*-alt$$ /verif/.work/*-evidence-alt$$.json /verif/.work/alt-*.mod /verif/.work/alt-*.sum /verif/.work/bin/vcheck*-alt-*' EXIT
+git -C $W/lisp apply "$P" || exit 2
+export VERIF_REPO_DIR=$W/lisp VERIF_WORK_SUFFIX=-alt$$
 cd /verif
-for a in "$@"; do
-  case $a in quick|thorough) TIER=$a;; esac
-done
+for a in "$@"; do case $a in quick|thorough) TIER=$a;; esac; done
 for a in "$@"; do
   case $a in quick|thorough) continue;; esac
-  echo "### $a $TIER"; ./check $a $TIER 2>&1 | grep -E "^VIOLATION|SUMMARY|witness|INCONCL|BROKEN" | cut -c1-260 | head -12
+  echo "### $a $TIER"; ./check $a $TIER 2>&1 | grep -a -E "^VIOLATION|SUMMARY|witness|INCONCL|BROKEN" | cut -c1-260 | head -12
 done
